@@ -799,6 +799,15 @@ pub fn worker_main(def: &CheckDef, tier: Tier, shard: u64, nshards: u64, journal
     let mut ctx = Ctx::new(tier, shard, nshards, Mode::Run, skip, Some(j));
     (def.run)(&mut ctx);
     ctx.finish();
+    // remove this process's scratch directories (oka::scratch_dir names them <tag>-<pid>)
+    if let Ok(rd) = std::fs::read_dir(scratch_root()) {
+        let suffix = format!("-{}", std::process::id());
+        for e in rd.flatten() {
+            if e.file_name().to_string_lossy().ends_with(&suffix) && !e.file_name().to_string_lossy().starts_with("drv-") {
+                let _ = std::fs::remove_dir_all(e.path());
+            }
+        }
+    }
     let s = serde_json::to_string(&ctx.stats).unwrap();
     if std::fs::write(out, s).is_err() {
         return 3;
